@@ -112,7 +112,7 @@ def run(ctx, prog):
     # bookkeeping in the batch hook: the point list is reset to the current count when a column is taken
     bl = base.methods['_batch_loop_compute']
     txt = norm(bl.node).replace(' ', '')
-    ctx.check('self._batches_processed.append(self.processed_traces)' in txt and 'self._batches_processed=[self._batches_processed[-1]]' in txt, 'C08-D3', f'{bl.key}::bookkeeping',
+    ctx.pattern('self._batches_processed.append(self.processed_traces)' in txt and 'self._batches_processed=[self._batches_processed[-1]]' in txt, 'C08-D3', f'{bl.key}::bookkeeping',
               'the processed-count bookkeeping (append current count; reset to [last] at each point) changed shape', 'count appended per batch, reset to [last] at each point', bl.where())
     ctx.floor('convergence call events judged', n_calls, 4)
     ctx.floor('attack hook combinations', len(seen), 1)
